@@ -7,6 +7,7 @@
 import KiraModel.Proofs.EffectsBProbe
 import KiraModel.Proofs.EffectsBEcho
 import KiraModel.Proofs.EffectsBReverb
+import KiraModel.Proofs.EffectsBLines
 
 namespace K
 open LineFx
@@ -145,5 +146,99 @@ theorem C14_allpass_step (a : AllPass ℝ) (h : a.WF) (x : ℝ) :
              -x + a.buffer[a.idx]'h) := by
   have hf : (Gen.allPassFeedback : ℝ) = 1 / 2 := by norm_num [Gen.allPassFeedback]
   rw [AllPass.process_ok a h, hf]
+
+/-! ## Reverb: the comb is a delay line with a low-pass in its feedback path, and it decays -/
+
+/-- **the comb ring buffer is a delay line of `size` frames.**  Read oldest-slot-first (`Comb.fifo`), one
+    `process` step pops the oldest slot `y` (that is the output, written `size` steps earlier), updates
+    the one-pole low-pass `store' = y·(1 − damp) + store·damp` and pushes `input + store'·feedback`:
+    Freeverb's low-pass-feedback comb `y[t] = w[t − N]`, `w[t] = x[t] + feedback·lp(y)[t]`. -/
+theorem C14_comb_is_delay_line (c : Comb ℝ) (h : c.WF) (x fb dp : ℝ) :
+    ∃ y rest c', c.fifo = y :: rest ∧ c.process x fb dp = .ok (c', y)
+      ∧ c'.store = y * (1 - dp) + c.store * dp
+      ∧ c'.fifo = rest ++ [x + c'.store * fb] ∧ c'.fifo.length = c.fifo.length := by
+  obtain ⟨c', h1, _, h2, h3⟩ := Comb.process_fifo c h x fb dp
+  have hne : c.fifo ≠ [] := by
+    intro h0
+    have := Comb.fifo_length c
+    rw [h0] at this
+    have hw := h; unfold Comb.WF at hw
+    simp at this; omega
+  obtain ⟨y, rest, hyr⟩ := List.exists_cons_of_ne_nil hne
+  refine ⟨y, rest, c', hyr, ?_, ?_, ?_, ?_⟩
+  · rw [h1]; simp [Comb.fifoStep, hyr]
+  · have := congrArg (fun p => p.2) h2
+    simpa [Comb.fifoStep, hyr] using this
+  · have e2 := congrArg (fun p => p.2) h2
+    have e1 := congrArg (fun p => p.1) h2
+    simp only [Comb.fifoStep, hyr] at e1 e2
+    rw [e1, e2]
+  · rw [Comb.fifo_length, Comb.fifo_length, h3]
+
+/-- the decay rate per cycle of `N` frames: `q = feedback + damping·(1 − feedback)`; `q < 1` exactly when
+    both are below 1 (for `0 ≤ feedback`, `0 ≤ damping`) -/
+theorem C14_comb_rate_lt_one (fb dp : ℝ) (hfb : fb < 1) (hdp : dp < 1) : fb + dp * (1 - fb) < 1 := by
+  nlinarith
+
+/-- **the comb decays geometrically for feedback < 1.**  A comb line of `N` slots whose slots and store
+    are within `M`, fed silence for any number `n` of frames (`Comb.run` iterates the model's
+    `CombFilter::process`), with `0 ≤ feedback ≤ 1` and `0 ≤ damping ≤ 1`: output `i` is within `M` during
+    the first cycle (`i < N`) and within `feedback · M · q^(i/N − 1)` afterwards, where
+    `q = feedback + damping·(1 − feedback)` (`< 1` by `C14_comb_rate_lt_one`): each trip round the line
+    multiplies the bound by `q`; with no damping, by the feedback itself. -/
+theorem C14_comb_decays (c : Comb ℝ) (hw : c.WF) (fb dp M : ℝ) (hfb0 : 0 ≤ fb) (hfb1 : fb ≤ 1)
+    (hdp0 : 0 ≤ dp) (hdp1 : dp ≤ 1) (hs : |c.store| ≤ M) (hbuf : ∀ e ∈ c.buffer.toList, |e| ≤ M) (n : ℕ) :
+    ∃ c' ys, Comb.run fb dp c (List.replicate n 0) = .ok (c', ys)
+      ∧ ∀ i, i < n → ∃ y, ys[i]? = some y
+        ∧ |y| ≤ (if i < c.buffer.size then M
+                 else fb * M * (fb + dp * (1 - fb)) ^ ((i - c.buffer.size) / c.buffer.size)) := by
+  obtain ⟨c', hrun, _, _⟩ := Comb.run_fifo fb dp (List.replicate n 0) c hw
+  refine ⟨c', _, hrun, ?_⟩
+  have hM : 0 ≤ M := le_trans (abs_nonneg _) hs
+  have hne : c.fifo ≠ [] := by
+    intro h0
+    have := Comb.fifo_length c
+    rw [h0] at this
+    have hw' := hw; unfold Comb.WF at hw'
+    simp at this; omega
+  have hinv : Comb.CycInv fb M M M c.fifo [] c.store :=
+    ⟨fun e he => hbuf e ((Comb.mem_fifo c e).mp he), by simp, by simpa using hs⟩
+  intro i hi
+  have := Comb.fifoRun_decay fb dp hfb0 hfb1 hdp0 hdp1 c.buffer.size n M M M c.fifo [] c.store hM hM (by ring)
+    (le_refl _) hne (by simp [Comb.fifo_length]) hinv i hi
+  simpa [Comb.fifo_length] using this
+
+/-- **impulse response of a fresh comb** (`CombFilter::new(N)`, `N ≥ 1`): nothing at frame 0, then within
+    `|x0|` for one cycle and within `feedback·|x0|·q^k` afterwards — it decays for feedback < 1. -/
+theorem C14_comb_impulse_response_decays (N : ℕ) (hN : 1 ≤ N) (fb dp x0 : ℝ) (hfb0 : 0 ≤ fb) (hfb1 : fb ≤ 1)
+    (hdp0 : 0 ≤ dp) (hdp1 : dp ≤ 1) (n : ℕ) :
+    ∃ c' ys, Comb.run fb dp (Comb.new N) (x0 :: List.replicate n 0) = .ok (c', 0 :: ys)
+      ∧ ∀ i, i < n → ∃ y, ys[i]? = some y
+        ∧ |y| ≤ (if i < N then |x0| else fb * |x0| * (fb + dp * (1 - fb)) ^ ((i - N) / N)) := by
+  have hw := Comb.new_wf N hN
+  obtain ⟨c1, h1, w1, e1, hsz⟩ := Comb.process_fifo (Comb.new N) hw x0 fb dp
+  have hfifo : (Comb.new N : Comb ℝ).fifo = List.replicate N 0 := by
+    simp [Comb.fifo, ringFifo, Comb.new]
+  have hstore : (Comb.new N : Comb ℝ).store = 0 := by simp [Comb.new]
+  obtain ⟨N', rfl⟩ : ∃ N', N = N' + 1 := ⟨N - 1, by omega⟩
+  rw [hfifo, hstore] at h1 e1
+  simp only [List.replicate_succ, Comb.fifoStep, zero_mul, add_zero, mul_zero] at h1 e1
+  have hs1 : |c1.store| ≤ |x0| := by
+    have := congrArg (fun p => p.2) e1
+    simp only at this
+    rw [this]; simp
+  have hb1 : ∀ e ∈ c1.buffer.toList, |e| ≤ |x0| := by
+    intro e he
+    have hf := congrArg (fun p => p.1) e1
+    simp only at hf
+    have : e ∈ c1.fifo := (Comb.mem_fifo c1 e).mpr he
+    rw [hf] at this
+    simp only [List.mem_append, List.mem_replicate, List.mem_singleton] at this
+    rcases this with ⟨_, rfl⟩ | rfl <;> simp
+  obtain ⟨c', ys, hrun, hys⟩ := C14_comb_decays c1 w1 fb dp |x0| hfb0 hfb1 hdp0 hdp1 hs1 hb1 n
+  refine ⟨c', ys, ?_, ?_⟩
+  · simp only [Comb.run, h1, hrun]
+  · have hsz' : c1.buffer.size = N' + 1 := by rw [hsz]; simp [Comb.new]
+    simpa [hsz'] using hys
 
 end K
